@@ -13,6 +13,7 @@ import Driver.Helpers
 import Driver.Restrict
 import Driver.Conc
 import Driver.Dup
+import Driver.XmlRt
 open Driver
 
 def main (args : List String) : IO UInt32 := do
@@ -66,6 +67,9 @@ def main (args : List String) : IO UInt32 := do
     return 0
   | ["dup"] =>
     lineLoop stdin stdout ({} : DupEng.St) DupEng.step
+    return 0
+  | ["xmlrt"] =>
+    lineLoop stdin stdout ({} : XmlRtEng.St) XmlRtEng.step
     return 0
   | _ =>
     IO.eprintln "usage: hwmodel <engine>"
